@@ -205,3 +205,57 @@ Definition priority_of_sorted (sorted : list nat) (n : nat) : list Q :=
                 | Some p => inject_Z (Z.of_nat p)
                 | None => inject_Z (Z.of_nat (length sorted))
                 end) (seq 0 n).
+
+(* ---- compute_epsilon_net (non_dominated_priority.py) --------------------------------
+   The greedy farthest-point order over the [n] items of one Pareto front. Everything
+   that depends on float norms or on np.random is an oracle:
+     [seed]            = initial_index (np.random.choice(n) or np.argmin(X, axis=0)[dim]);
+     [choose order rem] = ordered_indices[min_distances.argmax()], the item of the
+                         still-unchosen set [rem] that is picked next.
+   The bookkeeping is the code's own: a set of unchosen indices from which the seed and
+   then every choice is removed, the list [order] to which they are appended, and the
+   final conversion of the order (an argsort) into ranks: ranks[order[r]] = r. *)
+Fixpoint remove_nat (x : nat) (l : list nat) : list nat :=
+  match l with
+  | [] => []
+  | y :: r => if Nat.eqb y x then remove_nat x r else y :: remove_nat x r
+  end.
+
+Fixpoint en_loop (choose : list nat -> list nat -> nat) (order rem : list nat) (fuel : nat) : list nat :=
+  match fuel with
+  | O => order
+  | S f =>
+      match rem with
+      | [] => order
+      | _ :: _ => let c := choose order rem in en_loop choose (order ++ [c]) (remove_nat c rem) f
+      end
+  end.
+
+Definition epsilon_net_order (seed : nat) (choose : list nat -> list nat -> nat) (n : nat) : list nat :=
+  en_loop choose [seed] (remove_nat seed (seq 0 n)) n.
+
+(* position of the first occurrence of [i] in [l] ([length l] when absent) *)
+Fixpoint pos_of (i : nat) (l : list nat) : nat :=
+  match l with
+  | [] => O
+  | x :: r => if Nat.eqb x i then O else S (pos_of i r)
+  end.
+
+Definition ranks_of_order (order : list nat) (n : nat) : list nat :=
+  map (fun i => pos_of i order) (seq 0 n).
+
+Definition compute_epsilon_net (seed : nat) (choose : list nat -> list nat -> nat) (n : nat) : list nat :=
+  ranks_of_order (epsilon_net_order seed choose n) n.
+
+(* nondominated_sort: indices.append(pareto_front[pareto_order]) *)
+Definition eps_layer (seedf : list nat -> nat) (choosef : list nat -> list nat -> list nat -> nat)
+           (front : list nat) : list nat :=
+  match front with
+  | [] => []
+  | _ :: _ => map (fun r => nth r front O)
+                  (compute_epsilon_net (seedf front) (choosef front) (length front))
+  end.
+
+(* an oracle that replays a recorded order: the element after the ones chosen so far *)
+Definition choose_replay (recorded : list nat) (order rem : list nat) : nat :=
+  nth (length order) recorded O.
